@@ -9,6 +9,7 @@ pub mod c10;
 pub mod c11;
 pub mod c12;
 pub mod c13;
+pub mod c14;
 pub mod c15;
 pub mod c16;
 pub mod c17;
@@ -29,6 +30,7 @@ pub fn lookup(id: &str) -> Option<&'static dyn Prop> {
         "C11" => Some(&c11::C11),
         "C12" => Some(&c12::C12),
         "C13" => Some(&c13::C13),
+        "C14" => Some(&c14::C14),
         "C15" => Some(&c15::C15),
         "C16" => Some(&c16::C16),
         "C17" => Some(&c17::C17),
